@@ -317,6 +317,11 @@ def rigid_check(cls, case, rec):
         return
     kw = {"v0": np.random.default_rng(case["seed"]).uniform(-1, 1, len(dof1m))} if cls == "mixed-hexahedron" else {}
     j1 = fem.FreeVibration([fem.SolidBody(um, fc, density=rho)], bounds).evaluate(k=k, **kw)
+    if cls in ("hexahedron", "quad-planestrain") and case["seed"] % 2 == 0:
+        # stress recovery of a mode shape between the two analyses (extrapolation from the quadrature points of a region that
+        # uses the template's default rule): the regions created afterwards must not be affected
+        fem.tools.extrapolate(np.ones((3, 3) + fc.region.dV.shape), fc.region, mean=False)
+        rec.label("extrapolate-between-the-analyses")
     tr = {"angles": case["angles"], "shift": case["shift"]}
     mesh2, _, fc2, um2, _ = model(fem, cls, case, transform=tr)
     b2 = boundaries(fem, fc2, Xref, case, dim)  # the same points (masks are evaluated on the reference coordinates)
